@@ -66,3 +66,7 @@ fn verif_range_take_while_count<F: Fn(usize) -> bool>(a: usize, b: usize, f: F) 
         forall|i: usize| #![trigger f.ensures((i,), true)] #![trigger tw_idx(i)] a <= i < a + r ==> f.ensures((i,), true),
         a + r < b ==> f.ensures(((a + r) as usize,), false),
 { (a..b).take_while(|&it| f(it)).count() }
+// std: Option::map_or
+pub assume_specification<T, U, F: FnOnce(T) -> U>[ Option::<T>::map_or ](o: Option<T>, default: U, f: F) -> (r: U)
+    requires o is Some ==> f.requires((o->Some_0,)),
+    ensures o is None ==> r == default, o is Some ==> f.ensures((o->Some_0,), r);
